@@ -323,7 +323,10 @@ class ScriptedProtocol(IProtocol):
         protocol = super().instantiate(provider)
         if (CTX.scenario or {}).get("early_controller"):
             # a protocol class that overrides instantiate() builds its helpers there, right after it is given its provider
-            protocol._controller = CommunicationController(protocol)
+            try:
+                protocol._controller = CommunicationController(protocol)
+            except Exception:  # noqa: BLE001
+                protocol._controller = None       # (a library that refuses extensions this early is within its rights)
         return protocol
 
     def __init__(self):
@@ -923,7 +926,10 @@ def run_sim_impl(sc, variant=None):
             if sc.get("forked"):
                 # a prepared simulation is forked with copy.deepcopy before it starts, and the copy is the one that runs
                 import copy as _copy
-                sim = _copy.deepcopy(sim)
+                try:
+                    sim = _copy.deepcopy(sim)
+                except Exception:  # noqa: BLE001
+                    pass            # (a simulator that cannot be copied is no finding: copying is not part of the library's interface)
             CTX.sim = sim
             if sc.get("poll_done"):
                 sim.is_simulation_done()    # a read-only query, asked before anything has run
